@@ -65,7 +65,8 @@ NoLeak(s, rs) ==
                           /\ Skip(s, rs[i].n) => Exem(s, rs[i].n)
 
 C04_NoLeakInText(s, o) == NoLeak(s, o.txt)
-C04_NoLeakInHtml(s, o) == NoLeak(s, o.htm) /\ NoLeak(s, o.hid)
+\* hidden elements and comments of the output are part of the distilled HTML too
+C04_NoLeakInHtml(s, o) == NoLeak(s, o.htm) /\ NoLeak(s, o.hid) /\ NoLeak(s, o.cmt)
 
 (***************************************************************************)
 (* C05 - the distilled HTML is inert.                                      *)
